@@ -91,6 +91,31 @@ fn check_case(spec: &TlSpec, rt: &RefTl, tl_s: &PTimeline, twin: &PTimeline, st:
 /// Keyframes of one property tied at 0% (a step at the very start of the cycle): the stretch "from 0% to the
 /// property's next keyframe" is empty, so a substituted start value may only show at position 0 itself; at every
 /// position strictly after 0% - first pass included - the results must be bit-identical to the twin.
+/// Clones of a timeline that already had its start value substituted: `clone()` and `clone_from` into an
+/// object that never had one (and into one that had a different one) evaluate bit-identically to the original.
+fn clone_clause(spec: &TlSpec, tls: &PTimeline, twin: &PTimeline, st: &P, grid: &[f32], init: &P, rank: u64, acc: &mut Acc) -> bool {
+    let c1 = tls.clone();
+    let mut c2 = twin.clone();
+    c2.clone_from(tls);
+    let mut c3 = twin.clone();
+    c3.start_with(&P { a: 555.0, k: -555, ..P::default() });
+    c3.clone_from(tls);
+    let mut ok = true;
+    for &t in grid {
+        let want = eval_real(tls, t, init);
+        for (via, c) in [("clone", &c1), ("clone_from-into-unstarted", &c2), ("clone_from-into-started", &c3)] {
+            let got = eval_real(c, t, init);
+            acc.evals += 1;
+            acc.twin_equal += 1;
+            if got.bits() != want.bits() {
+                ok = false;
+                add(acc, &format!("clone-after-start_with-differs:{via}"), rank, format!("t={t}: {via} of the started timeline gives {:?}, the original {:?}", got, want), spec, st, t, init);
+            }
+        }
+    }
+    ok
+}
+
 fn tied_family(thetas: &[Timing], grids: &[Vec<f32>], init: &P, acc: &mut Acc) {
     let k = |pos: f32, a: Option<f32>, kk: Option<i32>, e: Option<u8>| Kf { pos, a, k: kk, d: None, easing: e };
     let lists: Vec<Vec<Kf>> = vec![
@@ -163,6 +188,11 @@ pub fn run(run: Run) -> ! {
                     acc.timelines += 1;
                     for &t in &grids[ti] {
                         check_case(&spec, &rt, &tls, &twin, &st, t, &init, rank, acc);
+                    }
+                    // the substituted start value belongs to the timeline object: a clone taken AFTER
+                    // start_with (through either Clone method) must show it exactly as the original does
+                    if (idx as usize + ti + sti) % 3 == 0 {
+                        clone_clause(&spec, &tls, &twin, &st, &grids[ti], &init, rank, acc);
                     }
                 }
                 if acc.samples.len() < 2 && n == nmax && idx % 3001 == 17 && ti == 7 {
@@ -275,6 +305,7 @@ pub fn replay(case: &Value) -> bool {
     tls.start_with(&st);
     let mut acc = Acc::default();
     check_case(&spec, &rt, &tls, &twin, &st, t, &init, 0, &mut acc);
+    clone_clause(&spec, &tls, &twin, &st, &[t], &init, 0, &mut acc);
     println!("with start {:?}\ntwin {:?}", eval_real(&tls, t, &init), eval_real(&twin, t, &init));
     for (s, v) in &acc.sink.map {
         println!("{s}: {}", v.desc);
